@@ -20,7 +20,7 @@ func registerC03() {
 		Rule: "family filetypes: all 256 file_id.type values (Decode, NewFile and the 17x17 accessor matrix: exactly the matching accessor returns a non-nil container, " +
 			"all others an error; the 239 values without a container must be rejected); family routing: for each of the 17 file types, PRNG interleavings of messages drawn from all " +
 			"101 known types and unknown numbers, each carrying a unique serial number, compared with the routing the declared container types prescribe (reflection on the public " +
-			"container structs: *XMsg = single-valued slot holding the last, []*XMsg = ordered slot); non-trivial: at least one hosted and one non-hosted message; distinct by stream digest",
+			"container structs: *XMsg = single-valued slot holding the last, []*XMsg = ordered slot); every file type without a container is also placed inside chains (good+X, X+good, good+X+good): DecodeChained must return an error and no container for X; non-trivial: at least one hosted and one non-hosted message; distinct by stream digest",
 		Assume: []string{
 			"a repeated file_id restates the same type (a file_id that changes the type in mid-stream is not defined by the statement and not generated)",
 			"messages of known types that no container hosts are unobservable through the API; for them only 'no effect on the others' is checked",
